@@ -58,6 +58,8 @@ def coerce_to(v: V, t: T) -> V:
             return opt_none(t)
         if v.t == t.t or (t.t == REAL and v.t == INT):
             return opt_some(t, coerce_to(v, t.t).z)
+    if isinstance(t, TTuple) and isinstance(v.t, TTuple) and len(t.items) == len(v.t.items):
+        return mk_tuple(t, [coerce_to(tuple_get(v, i), it).z for i, it in enumerate(t.items)])
     if isinstance(t, TList) and isinstance(v.t, TList) and t.elem == REAL and v.t.elem == INT:
         # list[int] used where list[float] expected: element-wise conversion is not expressible as a term;
         raise Unsupported(f"list[int] -> list[float] coercion")
@@ -394,6 +396,9 @@ class Eval:
             return self.ex.slice(self, base, n.slice, n)
         if isinstance(base.t, TList):
             idx = self.expr(n.slice)
+            if isinstance(idx.t, TOpt) and idx.t.t == INT:
+                self.ob("none-deref", z3.Not(opt_is_none(idx)), n)
+                idx = opt_val(idx)
             if idx.t != INT:
                 raise Unsupported("non-int list index")
             ln = list_len(base)
